@@ -271,9 +271,16 @@ def exec_case(case):
                     raise E(f"injected I/O failure at {fail}")
                 return img
 
+        which = case.get("which", "u8")
+
         def make_target(w):
-            pio = FailingPio(w, [])
-            return lambda: transform.u8_to_rgb(pio, depth, parallel=k)
+            pio = FailingPio(w, [], which)
+            kw = {"pio_out": FakePio(w, [], which)} if case.get("sep_out") else {}
+            if which == "f16x3":
+                return lambda: transform.f16x3_to_rgb(pio, depth, parallel=k, **kw)
+            return lambda: transform.u8_to_rgb(pio, depth, parallel=k, **kw)
+
+        classes += [which] + (["separate-output-pyramid"] if case.get("sep_out") else [])
 
         classes += [f"depth{depth}"]
     status, exc, hang, w = run(None, k, case.get("sched"), make_target)
@@ -368,6 +375,10 @@ def strat(draw, tier):
     elif stage == "transform":
         k = draw(st.sampled_from([1, 2, 2, 3, 4, 8]))
         case = {"stage": stage, "depth": draw(st.integers(0, 2 if tier == "quick" else 3)), "k": k}
+        if draw(st.integers(0, 2)) == 0:
+            case["which"] = "f16x3"
+        if draw(st.integers(0, 3)) == 0:
+            case["sep_out"] = True
         if k > 1:
             case["sched"] = draw(scen.schedules())
     else:
